@@ -7,7 +7,47 @@ import checklib
 SIX = ["back", "back_fct", "back11", "mp11", "mp11_fpa", "mp11_fct"]
 POL = lambda base: [base + ":p%d" % p for p in range(4)]
 
+CORE_ASSUME = ["behaviours are pure observers in these runs (empty plan): no submissions, no throws",
+               "machines are drawn from the generator's well-formed family (regions with disjoint state sets, targets in the source's region)"]
+
 PROPS = {
+    "C01": {
+        "profile": "core", "n_quick": 5, "n_thorough": 40, "nops": 16, "nlists": 3, "cfgs": SIX,
+        "monitor": None,
+        "relevant": M.relevant_by(M.proj({"G0", "G1", "A"}, keep_res=True)),
+        "rule": "seeded random machines (1-3 regions, depth <= 2, conflicting rows, state and sm internal tables) x 6 "
+                "configurations x random guard valuations; distinct = (configuration, machine, active ids, event, guard pattern)",
+        "assumptions": CORE_ASSUME,
+    },
+    "C02": {
+        "profile": "core", "n_quick": 5, "n_thorough": 40, "nops": 16, "nlists": 3, "cfgs": SIX,
+        "monitor": None,
+        "relevant": M.relevant_by(M.proj({"X", "A", "N", "MN", "MX"}, keep_snap=True)),
+        "rule": "same machines as C01; every taken transition's exit/action/entry cascade compared item by item",
+        "assumptions": CORE_ASSUME,
+    },
+    "C06": {
+        "profile": "core", "n_quick": 5, "n_thorough": 40, "nops": 16, "nlists": 3, "cfgs": SIX,
+        "monitor": M.mon_C06,
+        "relevant": M.relevant_by(M.proj({"NT"}, keep_res=True)),
+        "rule": "same machines as C01; result code and no_transition calls of every process_event",
+        "assumptions": CORE_ASSUME,
+    },
+    "C07": {
+        "profile": "nest", "n_quick": 4, "n_thorough": 30, "nops": 16, "nlists": 3, "cfgs": SIX,
+        "monitor": None,
+        "relevant": M.relevant_by(M.proj(M.ALL, keep_res=True, keep_snap=True)),
+        "rule": "nested machines (depth 2-3, 1-2 regions per level); full trace compared",
+        "assumptions": CORE_ASSUME,
+    },
+    "C03": {
+        "profile": "all", "n_quick": 4, "n_thorough": 30, "nops": 18, "nlists": 3, "cfgs": SIX,
+        "monitor": M.mon_C03,
+        "relevant": M.relevant_by(M.proj({"N", "X", "MN", "MX"}, keep_snap=True)),
+        "rule": "machines with completion, deferral, history and blocking states; after every operation the reported "
+                "active ids at every level are checked against the entry/exit ledger and the regions' state sets",
+        "assumptions": ["exception-free behaviours"],
+    },
     "C19": {
         "profile": "nest", "n_quick": 3, "n_thorough": 16, "nops": 14, "nlists": 3,
         "cfgs": POL("back") + POL("mp11") + ["back11:p2", "back_fct:p1", "mp11_fct:p3", "mp11_fpa:p2"],
